@@ -272,11 +272,13 @@ theorem claimA (env : ShapeEnv) (C : List Name) : ∀ (t : Bin) (v : List (List 
     refine ⟨by simp, by simp, by simp, ?_⟩
     cases hc : C.contains n with
     | true =>
-      refine ⟨[[]], [], by simp [removeT, hc, evalOpt], by simp [proj], by simp [cnt], ?_, by simp [removeT, hc]⟩
-      simp [fmask, Bin.fields, hc, rawRows, hprod, pat_single_false, proj, List.map_map, Function.comp_def]
+      have hmem : n ∈ C := by simpa using hc
+      refine ⟨[[]], [], by simp [removeT, hmem, evalOpt], by simp [proj], by simp [cnt], ?_, by simp [removeT, hmem]⟩
+      simp [fmask, Bin.fields, hmem, rawRows, hprod, pat_single_false, proj, List.map_map, Function.comp_def]
     | false =>
-      refine ⟨rawRows [k + 1], [k + 1], by simp [removeT, hc, evalOpt, evalBin, hk], by simp [proj],
-        by simp [rawRows, hprod, cnt], ?_, by simp [removeT, hc]⟩
+      have hmem : n ∉ C := by simpa using hc
+      refine ⟨rawRows [k + 1], [k + 1], by simp [removeT, hmem, evalOpt, evalBin, hk], by simp [proj],
+        by simp [rawRows, hprod, cnt], ?_, by simp [removeT, hmem]⟩
       simp only [fmask, Bin.fields, hc, List.map_cons, List.map_nil, Bool.not_false, pat_single_true]
       have h1 : (rawRows [k + 1]).map (proj [true]) = rawRows [k + 1] := by
         simp [rawRows, proj, List.map_map, Function.comp_def]
